@@ -4,8 +4,9 @@
 /* tag: ghost identity of the literal(s) a string was built from (0 = none); tag' = tag * 64 + literal id */
 typedef struct str_t { int8_t* data; size_t size; uint64_t tag; } str_t;
 #if defined(VERIF_CBMC) && defined(VERIF_ABSTRACT)
-static void str_assign_n(str_t* s, const int8_t* p, size_t n) { VERIF_ASSERT(n == 0 || __CPROVER_r_ok(p, n), "model: string::assign source readable"); s->data = (int8_t*)malloc(n ? n : 1); VERIF_ASSUME(s->data != 0); s->size = n; }
-static str_t str_copy(const str_t* a) { str_t r; r.data = (int8_t*)malloc(a->size ? a->size : 1); VERIF_ASSUME(r.data != 0); r.size = a->size; r.tag = a->tag; return r; }
+static void str_assign_n(str_t* s, const int8_t* p, size_t n) { VERIF_ASSERT(n == 0 || __CPROVER_r_ok(p, n), "model: string::assign source readable"); s->data = (int8_t*)malloc(n ? n : 1); VERIF_ASSUME(s->data != 0); s->size = n; s->tag = 0;
+  /* assign copies every byte: stated for the arbitrary ghost position verif_g */ if (verif_g < n) s->data[verif_g] = p[verif_g]; }
+static str_t str_copy(const str_t* a) { str_t r; r.data = (int8_t*)malloc(a->size ? a->size : 1); VERIF_ASSUME(r.data != 0); r.size = a->size; r.tag = a->tag; if (verif_g < a->size) r.data[verif_g] = a->data[verif_g]; return r; }
 static _Bool str_eq(const str_t* a, const str_t* b) { if (a->size != b->size) return 0; return nondet_bool(); }
 #else
 static void str_assign_n(str_t* s, const int8_t* p, size_t n) { s->data = (int8_t*)verif_alloc(n, 1); for (size_t i = 0; i < n; ++i) VERIF_MODEL_LOOP s->data[i] = p[i]; s->size = n; }
